@@ -144,6 +144,14 @@ class NodeWorld:
             self.world.obs("timer_check", fs.sid if fs is not None else -1, conn.state)
             return orig_ct(conn)
         node._check_timers = ct
+        if not hasattr(node, "_reconnect_peers"):
+            raise sk.HarnessError("Node._reconnect_peers no longer exists")
+        orig_rp = node._reconnect_peers
+
+        def rp():
+            self.world.obs("reconnect_check")
+            return orig_rp()
+        node._reconnect_peers = rp
         self.clients = []           # environment-side handles of accepted sockets
         if start:
             node.start()
